@@ -86,14 +86,14 @@ H("st_h2_reason_map", ["C04"], "transport", *ST, obligation="H6: code_from_h2 ov
 H("st_to_h2_error", ["C04"], "transport", *ST, obligation="H6: to_h2_error: CANCELLED => CANCEL, everything else INTERNAL_ERROR",
   functions=["tonic::Status::to_h2_error"], bounds="all 17 codes")
 for n in (1, 2):
-    H("st_fhm_status_%d" % n, ["C04", "C02"], "core", *ST, cap_s=600, stubs=[HTTPH],
+    H("st_fhm_status_%d" % n, ["C04", "C02"], "core_vb", *ST, cap_s=600, stubs=[HTTPH],
       obligation="H4: from_header_map on a real 1-entry map: code == reference parse of the grpc-status bytes, no panic",
       functions=["tonic::Status::from_header_map", "tonic::Code::from_bytes", "http::HeaderMap::{insert,get,clone,remove}"],
       bounds="grpc-status value: all %d-byte header-legal values" % n)
-H("st_fhm_absent", ["C04"], "core", *ST, cap_s=300, stubs=[HTTPH], obligation="H4: no grpc-status => None",
+H("st_fhm_absent", ["C04"], "core_vb", *ST, cap_s=300, stubs=[HTTPH], obligation="H4: no grpc-status => None",
   functions=["tonic::Status::from_header_map"], bounds="empty map")
 for n, t in ((2, "quick"), (3, "thorough")):
-    H("st_fhm_details_%d" % n, ["C04"], "core", *ST, cap_s=900 if t == "quick" else 2400, tier=t, stubs=[HTTPH],
+    H("st_fhm_details_%d" % n, ["C04"], "core_vb", *ST, cap_s=900 if t == "quick" else 2400, tier=t, stubs=[HTTPH],
       obligation="H4: from_header_map with arbitrary grpc-status-details-bin bytes: never panics; bytes outside the base64 alphabet "
                  "=> UNKNOWN error status (regression check for the fixed F1 panic)",
       functions=["tonic::Status::from_header_map", "tonic::util::base64::STANDARD (padding-indifferent)"],
@@ -101,20 +101,20 @@ for n, t in ((2, "quick"), (3, "thorough")):
 
 CMP = ("tonic/src/codec/compression.rs", "tonic/codec_compression.rs")
 UW_NAME = [("http::header::name::", 24), ("HdrName", 24), ("parse_hdr", 24)]
-H("cmp_enabled_set", ["C05"], "comp", *CMP, cap_s=600,
+H("cmp_enabled_set", ["C05"], "comp_vb", *CMP, cap_s=600,
   obligation="N3: EnabledCompressionEncodings after any <=4 enable() calls: is_enabled/is_empty match the history; the accept header "
              "value is exactly the enabled names in order + 'identity'; pop removes the last",
   functions=["EnabledCompressionEncodings::{enable,is_enabled,is_empty,pop,into_accept_encoding_header_value}"],
   bounds="all sequences of <= 4 enable() calls over {gzip,deflate,zstd}")
 for nm, val in (("gzip", "gzip"), ("deflate", "deflate"), ("identity", "identity"), ("sym4", "any 4 header-legal bytes")):
-    H("cmp_enc_hdr_" + nm, ["C05"], "comp", *CMP, cap_s=900, stubs=[HTTPH],
+    H("cmp_enc_hdr_" + nm, ["C05"], "comp_vb", *CMP, cap_s=900, stubs=[HTTPH],
       obligation="N2: from_encoding_header on a real 1-entry map: Ok(Some(e)) iff the value names e and e is enabled; identity => Ok(None); "
                  "otherwise Err(UNIMPLEMENTED)",
       functions=["CompressionEncoding::from_encoding_header", "http::HeaderMap::{insert,get}"],
       bounds="grpc-encoding = %s; enabled set: any state reachable by <= 4 enable() calls" % val,
       may_be_uncovered=["accepted encoding", "identity", "refused"])
 for nm, val in (("zstd_gzip", "'zstd, gzip'"), ("deflate_id", "'deflate,identity'"), ("sym4", "any 4 header-legal bytes"), ("absent", "header absent")):
-    H("cmp_accept_" + nm, ["C05"], "comp", *CMP, cap_s=900, stubs=[HTTPH],
+    H("cmp_accept_" + nm, ["C05"], "comp_vb", *CMP, cap_s=900, stubs=[HTTPH],
       obligation="N1: from_accept_encoding_header: the result is the first offered (comma-separated, trimmed) encoding that is enabled "
                  "for sending; None if there is none (regression check for fixed F3)",
       functions=["CompressionEncoding::from_accept_encoding_header", "split_by_comma", "http::HeaderMap::{insert,get}"],
@@ -125,12 +125,12 @@ GT = ("tonic/src/transport/service/grpc_timeout.rs", "tonic/grpc_timeout.rs")
 for nm, b, t, cap in (("1", "all 1-byte header-legal values", "quick", 600), ("2", "all 2-byte header-legal values", "quick", 900),
                       ("3", "all 3-byte header-legal values", "quick", 1200), ("tail_9", "'999999' + any 3 bytes (9 bytes)", "quick", 1200),
                       ("tail_10", "'9999999' + any 3 bytes (10 bytes)", "thorough", 2400), ("absent", "header absent", "quick", 300)):
-    H("gt_parse_" + nm, ["C09"], "transport", *GT, tier=t, cap_s=cap, stubs=[HTTPH],
+    H("gt_parse_" + nm, ["C09"], "transport_vb", *GT, tier=t, cap_s=cap, stubs=[HTTPH],
       obligation="G2: try_parse_grpc_timeout on a real 1-entry map == reference grammar (1..8 digits + unit in HMSmun => exact Duration; "
                  "anything else ignored), no panic",
       functions=["tonic::transport::service::grpc_timeout::try_parse_grpc_timeout", "http::HeaderMap::{insert,get(&str)}"],
       bounds="grpc-timeout value: " + b)
-H("gt_select_min", ["C09"], "transport", *GT, cap_s=1200, stubs=[HTTPH, "tokio::time::sleep stubbed: asserts its argument == min(header, configured) and ends the path (no runtime)"],
+H("gt_select_min", ["C09"], "transport_vb", *GT, cap_s=1200, stubs=[HTTPH, "tokio::time::sleep stubbed: asserts its argument == min(header, configured) and ends the path (no runtime)"],
   obligation="G4: GrpcTimeout::call arms the timer with min(caller grpc-timeout, configured timeout); no timer when both are absent",
   functions=["GrpcTimeout::call", "try_parse_grpc_timeout"],
   bounds="caller timeout absent / '<digit>S' / '<digit>m'; configured timeout: any Option<Duration>",
@@ -153,26 +153,72 @@ for k, t, cap in ((2, "quick", 600), (3, "quick", 900), (4, "thorough", 2400), (
 ME = ("tonic/src/metadata/encoding.rs", "tonic/metadata_encoding.rs")
 MM = ("tonic/src/metadata/map.rs", "tonic/metadata_map.rs")
 for n, t, cap in ((0, "quick", 300), (1, "quick", 900), (2, "quick", 1200), (3, "thorough", 3600)):
-    H("md_bin_roundtrip_%d" % n, ["C08", "C04"], "core", *ME, tier=t, cap_s=cap,
+    H("md_bin_roundtrip_%d" % n, ["C08", "C04"], "core_vb", *ME, tier=t, cap_s=cap,
       obligation="M3/H3: Binary::from_bytes writes unpadded standard base64 (== arithmetic reference); decode of that and of the '='-padded "
                  "spelling both give back the original bytes",
       functions=["metadata::encoding::Binary::{from_bytes,decode}", "tonic::util::base64::{STANDARD, STANDARD_NO_PAD}"],
       bounds="all %d-byte values" % n, outside=["values longer than 3 bytes (one base64 quantum)"])
-H("md_key_classification", ["C08"], "core", *ME, cap_s=600,
+H("md_key_classification", ["C08"], "core_vb", *ME, cap_s=600,
   obligation="M4: Binary::is_valid_key(k) <=> k ends with '-bin'; Ascii::is_valid_key == !Binary",
   functions=["metadata::encoding::{Binary,Ascii}::is_valid_key"], bounds="all ASCII keys of length 0..=7 (symbolic length)")
 for nm in ("te", "user_agent", "content_type", "grpc_status", "grpc_message", "grpc_message_type"):
-    H("md_sanitize_" + nm, ["C08", "C04"], "core", *MM, cap_s=900, stubs=[HTTPH],
+    H("md_sanitize_" + nm, ["C08", "C04"], "core_vb", *MM, cap_s=900, stubs=[HTTPH],
       obligation="M1: into_sanitized_headers on a real 2-entry map {reserved name, user entry} in either order: reserved name absent, user "
                  "entry intact (reserved names taken from the property statement, not from tonic's array)",
       functions=["MetadataMap::into_sanitized_headers", "MetadataMap::from_headers", "http::HeaderMap::{insert,remove,get}"],
       bounds="reserved name '%s'; user value: all 2-byte visible-ASCII values; both insertion orders" % nm.replace("_", "-"))
-H("md_typed_access", ["C08"], "core", *MM, cap_s=900, stubs=[HTTPH],
+H("md_typed_access", ["C08"], "core_vb", *MM, cap_s=900, stubs=[HTTPH],
   obligation="M4: a one-entry map with key 'x-a' / 'x-a-bin': exactly the accessor (get / get_bin / iter variant) of its kind sees the entry",
   functions=["MetadataMap::{get,get_bin,iter}"], bounds="2 keys (ASCII, binary)")
 
 for nm in ("probe_fhm_concrete", "probe_clone_remove3"):
     H(nm, ["PROBE"], "core_vb", *ST, cap_s=900, unwind=6, unwindset=UW_MAPS + [("function memcmp", 24)], obligation="measurement probe", functions=[], bounds="")
+
+WEB = ("tonic-web/src/call.rs", "web/call.rs")
+H("web_find_trailers_12", ["C17"], "web_vb", *WEB, cap_s=900,
+  obligation="U1: find_trailers == independent frame walker (Trailer(off) / Done(off) / IncompleteBuf / error on flag > 1)",
+  functions=["tonic_web::call::find_trailers"], bounds="all buffers of length 0..=12 (symbolic length)")
+H("web_find_trailers_17", ["C17"], "web_vb", *WEB, tier="thorough", cap_s=3600,
+  obligation="U1: find_trailers == independent frame walker", functions=["tonic_web::call::find_trailers"],
+  bounds="all buffers of length 0..=17 (symbolic length)")
+H("web_trailers_frame_repeated", ["C16"], "web_vb", *WEB, cap_s=900, stubs=[HTTPH],
+  obligation="R2: make_trailers_frame/encode_trailers: flag 0x80, BE32 length, one 'name:value\\r\\n' line per trailer *value* "
+             "(repeated names included)",
+  functions=["tonic_web::call::make_trailers_frame", "tonic_web::call::encode_trailers"],
+  bounds="3 trailers over 2 names (one repeated), 1-byte visible-ASCII symbolic values")
+H("web_decode_trailers_colon_repeat", ["C17"], "web_vb", *WEB, cap_s=1200, stubs=[HTTPH],
+  obligation="U2: decode_trailers_frame: every name with its full value: values containing ':' survive, repeated names keep all values",
+  functions=["tonic_web::call::decode_trailers_frame"],
+  bounds="frame with two lines for the same name; values of 3 and 1 symbolic visible-ASCII bytes (':' and inner ' ' included)")
+for n, k, t, cap in ((0, 1, "quick", 900), (3, 1, "quick", 900), (6, 1, "quick", 1200), (4, 2, "thorough", 2400), (7, 2, "thorough", 3600)):
+    H("web_client_step_n%d_k%d" % (n, k), ["C17"], "web_vb", *WEB, tier=t, cap_s=cap, stubs=[HTTPH],
+      unwindset=UW_MAPS + [("tonic_web::GrpcWebCall<", 2 * k + 4), ("call::GrpcWebCall<", 2 * k + 4)],
+      obligation="U3: one poll_frame of the client-side GrpcWebCall from %d arbitrary buffered bytes against every inner-body script of %d "
+                 "events: returns within the loop bound; data frames are whole message frames of the received bytes; clean end only if "
+                 "the inner body ended and nothing is buffered (a body cut inside a frame is an error); Pending only while the inner "
+                 "body is alive; after trailers/error/end the body is terminal and the inner body is never polled again" % (n, k),
+      functions=["tonic_web::GrpcWebCall::poll_frame (client, Decode)", "tonic_web::call::find_trailers", "tonic_web::call::trailers_frame_len",
+                 "tonic_web::GrpcWebCall::poll_decode"],
+      bounds="%d symbolic buffered bytes; %d symbolic inner events over {Pending, End, 2-byte data chunk, error}; loop bound %d" % (n, k, 2 * k + 4))
+for n in (3, 4, 6):
+    H("web_server_b64_chunk_%d" % n, ["C16"], "web_vb", *WEB, cap_s=900,
+      obligation="R1: GrpcWebCall::decode_chunk (base64 request): exactly the largest multiple-of-4 prefix is consumed and equals the "
+                 "arithmetic reference decoding; the remainder stays buffered unchanged",
+      functions=["tonic_web::GrpcWebCall::decode_chunk", "tonic_web::util::base64::STANDARD"],
+      bounds="all %d-character strings over the base64 alphabet" % n)
+
+TY = ("tonic-types/src/richer_error/std_messages/retry_info.rs", "types/retry_info.rs")
+H("ty_retry_delay_conversion", ["C20"], "types", *TY, cap_s=600,
+  obligation="Y1: RetryInfo::new / From<RetryInfo> for pb::RetryInfo / From<pb::RetryInfo>: for every std Duration the delay that comes "
+             "back is min(d, protobuf max), exactly",
+  functions=["RetryInfo::new", "impl From<RetryInfo> for pb::RetryInfo", "impl From<pb::RetryInfo> for RetryInfo",
+             "prost_types::Duration::try_from"],
+  bounds="all std::time::Duration values (u64 seconds x nanos < 1e9)")
+H("ty_retry_delay_none", ["C20"], "types", *TY, cap_s=300, obligation="Y1: absent delay stays absent", functions=["RetryInfo::new"], bounds="None")
+H("ty_retry_info_any_roundtrip", ["C20"], "types", *TY, cap_s=1800, tier="quick", optional=True,
+  obligation="Y2 (RetryInfo): detail -> Any (prost encode) -> detail (prost decode) is the identity inside the protobuf range",
+  functions=["RetryInfo::into_any", "RetryInfo::from_any_ref", "prost::Message::{encode_to_vec,decode}"],
+  bounds="all delays with seconds <= 315576000000, nanos < 1e9")
 
 
 def select(pid, tier, seed=0):
